@@ -148,20 +148,9 @@ func (p *prop) runStress(line string, f []string) core.Outcome {
 			return nil
 		}
 		c := &cfgGen{id: len(k.cfgs), st: st, h: mod.(*reverseproxy.Handler), cancel: cancel, maxFails: 100}
-		k.mu.Lock()
 		for _, u := range c.h.Upstreams {
-			idx, ok := k.objIdx[u.Host]
-			if !ok {
-				idx = len(k.objs)
-				k.objs = append(k.objs, u.Host)
-				k.objIdx[u.Host] = idx
-				k.forgetsSeen = append(k.forgetsSeen, 0)
-				k.dueTotal = append(k.dueTotal, 0)
-				hostReg.Store(u.Host, k)
-			}
-			c.objs = append(c.objs, idx)
+			c.objs = append(c.objs, k.register(u.Host))
 		}
-		k.mu.Unlock()
 		k.cfgs = append(k.cfgs, c)
 		return c
 	}
